@@ -90,8 +90,8 @@ UpToDate(s, idx, lt) == \/ Mut = "uptodate"
                         \/ (lt = LastTerm(s) /\ idx >= Last(s))
 
 -------------------------------------------------------------------------------
-(* ============================ strict layer ================================ *)
-(* role changes (raft.go reset / become*) *)
+(* #### strict layer #### *)
+(* role changes: raft.go reset, becomeFollower, becomeCandidate, becomeLeader *)
 ResetS(s, i, term) ==
   [s EXCEPT !.term = term,
             !.vote = IF term = s.term \/ Mut = "votereset" THEN s.vote ELSE 0,
@@ -208,7 +208,8 @@ TimeoutNow(i, s, to) == Msg("MsgTimeoutNow", i, to, s.term, 0, 0, 0, <<>>, FALSE
 \* ---- leadership transfer request (stepLeader/stepFollower MsgTransferLeader); x = transferee
 TransferRes(i, s, x) ==
   IF s.role = "L"
-  THEN IF x \notin Members(s) \/ x \in s.learners \/ x = i \/ s.tr = x THEN Ignore(s)
+  THEN IF x \notin Members(s) \/ x \in s.learners \/ s.tr = x THEN Ignore(s)
+       ELSE IF x = i THEN Res([s EXCEPT !.tr = 0], {})       \* a transfer in progress is aborted first
        ELSE LET s1 == [s EXCEPT !.tr = x]
             IN IF s.match[x] = Last(s) THEN Res(s1, {TimeoutNow(i, s, x)}) ELSE Res(s1, {})
   ELSE IF s.role = "F" /\ s.lead # 0
@@ -451,7 +452,7 @@ GrantsOf(i, msgs) ==
   \cup {[term |-> o.term, voter |-> i, cand |-> i] : o \in {x \in msgs : x.t = "MsgVote"}}
 
 -------------------------------------------------------------------------------
-(* ============================== actions =================================== *)
+(* #### actions #### *)
 (* MC_ZRaft*.tla bound these; CanonFlow gives the messages the model's leader  *)
 (* sends, the trace specification accepts any FlowOK message instead.           *)
 CONSTANTS Collapsed     \* TRUE: every input runs the whole Ready pipeline atomically
@@ -585,7 +586,7 @@ Crash(i, lost) ==
   /\ dur' = [dur EXCEPT ![i].hs = IF lost THEN dur[i].shs ELSE @]
   /\ UNCHANGED net /\ UNCHANGED hvars
 Restart(i) ==
-  /\ ~st[i].up /\ dur[i] # NoDur
+  /\ ~st[i].up
   /\ bad' = bad \cup (IF RestartOK(dur[i]) THEN {} ELSE {"restart-commit"})
   /\ RestartOK(dur[i]) => /\ st' = [st EXCEPT ![i] = RestartS(i, dur[i])]
                           /\ dur' = [dur EXCEPT ![i] = DurAtRestart(@)]
@@ -600,7 +601,7 @@ Start(i, boot, learner) ==
   /\ UNCHANGED <<dur, rdy, net, leaders, grants, gapp, bad>>
 
 -------------------------------------------------------------------------------
-(* ============================= properties ================================= *)
+(* #### properties #### *)
 ElectionSafety == \A p, q \in leaders : p[1] = q[1] => p[2] = q[2]
 LearnerNeverCampaignsOrVotes ==
   /\ "learner-vote" \notin bad /\ "learner-campaign" \notin bad
